@@ -38,11 +38,11 @@ def effType (f : Feature) : Str := if f.type ≠ [] then f.type else sUnknown
 
 theorem buildFeature_eq (locus : Str) (f : Feature) :
     buildFeature locus f = joinSep '\t' [effName locus f, effSource f, effType f, itoa (f.start + 1), itoa f.stop,
-      f.score, f.strand, f.phase, attrText (canonAttrs f.attrs)] := by
+      f.score, f.strand, f.phase, col9 false (canonAttrs f.attrs)] := by
   have ha := attrs_built (fun k => lookupD [] k f.attrs) (sortStrings (f.attrs.map (·.1)))
-  have hc : attrText (canonAttrs f.attrs)
+  have hc : col9 false (canonAttrs f.attrs)
       = joinSep ';' ((sortStrings (f.attrs.map (·.1))).map fun k => k ++ '=' :: lookupD [] k f.attrs) := by
-    simp [attrText, canonAttrs, sortedEntries, List.map_map, Function.comp_def]
+    simp [col9, attrText, canonAttrs, sortedEntries, List.map_map, Function.comp_def]
   simp only [buildFeature, hc, effName, effSource, effType, joinSep, tab, List.append_assoc, List.cons_append,
     List.nil_append] at ha ⊢
   rw [ha]
@@ -52,19 +52,19 @@ theorem buildFeature_eq (locus : Str) (f : Feature) :
 theorem inInt_spec {v : Int} (h : inInt v = true) : minInt ≤ v ∧ v ≤ maxInt := of_decide_eq_true h
 
 structure FeatureFacts (locus : Str) (f : Feature) : Prop where
-  name : ∀ x ∈ ['\t', '\n'], x ∉ effName locus f
+  name : ∀ x ∈ ['\t', '\n', '\r'], x ∉ effName locus f
   noHash : hasPrefix sHash1 (effName locus f) = false
-  source : ∀ x ∈ ['\t', '\n'], x ∉ effSource f
-  type : ∀ x ∈ ['\t', '\n'], x ∉ effType f
-  score : ∀ x ∈ ['\t', '\n'], x ∉ f.score
-  strand : ∀ x ∈ ['\t', '\n'], x ∉ f.strand
-  phase : ∀ x ∈ ['\t', '\n'], x ∉ f.phase
+  source : ∀ x ∈ ['\t', '\n', '\r'], x ∉ effSource f
+  type : ∀ x ∈ ['\t', '\n', '\r'], x ∉ effType f
+  score : ∀ x ∈ ['\t', '\n', '\r'], x ∉ f.score
+  strand : ∀ x ∈ ['\t', '\n', '\r'], x ∉ f.strand
+  phase : ∀ x ∈ ['\t', '\n', '\r'], x ∉ f.phase
   start1 : minInt ≤ f.start + 1 ∧ f.start + 1 ≤ maxInt
   stop : minInt ≤ f.stop ∧ f.stop ≤ maxInt
   attrs : AttrFacts f.attrs
 
-theorem sFeature_free : ∀ x ∈ ['\t', '\n'], x ∉ sFeature := by decide
-theorem sUnknown_free : ∀ x ∈ ['\t', '\n'], x ∉ sUnknown := by decide
+theorem sFeature_free : ∀ x ∈ ['\t', '\n', '\r'], x ∉ sFeature := by decide
+theorem sUnknown_free : ∀ x ∈ ['\t', '\n', '\r'], x ∉ sUnknown := by decide
 
 theorem featureFacts {locus : Str} {f : Feature} (h : wfFeature locus f = true) : FeatureFacts locus f := by
   simp only [wfFeature, wfCol, Bool.and_eq_true, Bool.not_eq_true'] at h
@@ -92,24 +92,21 @@ theorem canonAttrs_perm {a : List (Str × Str)} (h : (a.map (·.1)).Nodup) : (ca
 
 theorem canonAttrs_facts {a : List (Str × Str)} (h : AttrFacts a) : AttrFacts (canonAttrs a) := by
   have hp := canonAttrs_perm h.nodup
-  refine ⟨?_, sortedEntries_keys_nodup [] a h.nodup, ?_⟩
-  · intro e
-    rw [e] at hp
-    exact h.ne hp.symm.eq_nil
-  · intro kv hkv
-    exact h.chars kv (hp.subset hkv)
+  refine ⟨sortedEntries_keys_nodup [] a h.nodup, ?_⟩
+  intro kv hkv
+  exact h.chars kv (hp.subset hkv)
 
-theorem itoa_free_tabnl (v : Int) : ∀ x ∈ ['\t', '\n', ' '], x ∉ itoa v := by
+theorem itoa_free_tabnl (v : Int) : ∀ x ∈ ['\t', '\n', '\r', ' '], x ∉ itoa v := by
   intro x hx
   simp only [List.mem_cons, List.not_mem_nil, or_false] at hx
-  rcases hx with rfl | rfl | rfl <;> exact itoa_free v (by decide) (by decide)
+  rcases hx with rfl | rfl | rfl | rfl <;> exact itoa_free v (by decide) (by decide)
 
 /-! ### Parse ∘ Build, feature by feature -/
 
 theorem parseFeature_build {locus : Str} {f : Feature} (h : wfFeature locus f = true) :
     parseFeature (buildFeature locus f) = .ok (expectedFeature locus f) := by
   have hf := featureFacts h
-  rw [buildFeature_eq, parseFeature_cols _ _ _ _ _ _ _ _ _ ?_ (canonAttrs_facts hf.attrs)]
+  rw [buildFeature_eq, parseFeature_cols _ _ _ _ _ _ _ _ _ false ?_ (canonAttrs_facts hf.attrs)]
   · have h1 : atoi (itoa (f.start + 1)) - 1 = f.start := by rw [atoi_itoa hf.start1]; omega
     have h2 : atoi (itoa f.stop) = f.stop := atoi_itoa hf.stop
     rw [h1, h2]
@@ -148,7 +145,7 @@ theorem buildFeature_line {locus : Str} {f : Feature} (h : wfFeature locus f = t
       · exact hf.score _ (by simp) hc
       · exact hf.strand _ (by simp) hc
       · exact hf.phase _ (by simp) hc
-      · exact attrText_free (canonAttrs_facts hf.attrs) (by simp) hc
+      · exact col9_free (canonAttrs_facts hf.attrs) false (by simp) hc
 
 theorem midOk_features (locus : Str) : ∀ (fs : List Feature), (∀ f ∈ fs, wfFeature locus f = true) →
     MidOk (fs.map (buildFeature locus)) (fs.map (expectedFeature locus))
@@ -163,8 +160,8 @@ theorem midOk_features (locus : Str) : ∀ (fs : List Feature), (∀ f ∈ fs, w
 
 theorem sGffVersion_eq : sGffVersion = '#' :: '#' :: 'g' :: "ff-version".toList := by decide
 theorem sSeqRegion_eq : sSeqRegion = '#' :: '#' :: 's' :: "equence-region".toList := by decide
-theorem sGffVersion_free : ∀ x ∈ [' ', '\n'], x ∉ sGffVersion := by decide
-theorem sSeqRegion_free : ∀ x ∈ [' ', '\n'], x ∉ sSeqRegion := by decide
+theorem sGffVersion_free : ∀ x ∈ [' ', '\n', '\r'], x ∉ sGffVersion := by decide
+theorem sSeqRegion_free : ∀ x ∈ [' ', '\n', '\r'], x ∉ sSeqRegion := by decide
 
 theorem header_line_facts (a : Char) (t rest : Str) (ha : a ≠ 'F') :
     hasPrefix sHash1 (('#' :: '#' :: a :: t) ++ rest) = true ∧ ('#' :: '#' :: a :: t) ++ rest ≠ sFasta := by
@@ -184,7 +181,7 @@ theorem regionLine_facts (x : Gff) : hasPrefix sHash1 (regionLine x) = true ∧ 
   simp only [List.append_assoc]
   exact header_line_facts _ _ _ (by decide)
 
-theorem versionLine_split (x : Gff) (h : free [' ', '\n'] x.gffVersion = true) :
+theorem versionLine_split (x : Gff) (h : free [' ', '\n', '\r'] x.gffVersion = true) :
     idx (split ' ' (versionLine x)) 1 = .ok (if x.gffVersion ≠ [] then x.gffVersion else ['3']) := by
   unfold versionLine
   split
@@ -194,35 +191,35 @@ theorem versionLine_split (x : Gff) (h : free [' ', '\n'] x.gffVersion = true) :
     have : split ' ' ['3', ' '] = [['3'], []] := by decide
     rw [this]; rfl
 
-theorem digitsOnly_free (s : Str) : ∀ x ∈ [' ', '\n'], x ∉ digitsOnly s := by
+theorem digitsOnly_free (s : Str) : ∀ x ∈ [' ', '\n', '\r'], x ∉ digitsOnly s := by
   intro x hx hm
   have := (List.mem_filter.1 hm).2
   simp only [List.mem_cons, List.not_mem_nil, or_false] at hx
-  rcases hx with rfl | rfl <;> exact absurd this (by decide)
+  rcases hx with rfl | rfl | rfl <;> exact absurd this (by decide)
 
-theorem regionStartText_free (x : Gff) : ∀ c ∈ [' ', '\n'], c ∉ regionStartText x := by
+theorem regionStartText_free (x : Gff) : ∀ c ∈ [' ', '\n', '\r'], c ∉ regionStartText x := by
   intro c hc
   unfold regionStartText
   split
   · exact itoa_free_tabnl _ c (by
       simp only [List.mem_cons, List.not_mem_nil, or_false] at hc ⊢
-      rcases hc with rfl | rfl <;> simp)
+      rcases hc with rfl | rfl | rfl <;> simp)
   · simp only [List.mem_cons, List.not_mem_nil, or_false] at hc
-    rcases hc with rfl | rfl <;> decide
+    rcases hc with rfl | rfl | rfl <;> decide
 
-theorem regionEndText_free (x : Gff) : ∀ c ∈ [' ', '\n'], c ∉ regionEndText x := by
+theorem regionEndText_free (x : Gff) : ∀ c ∈ [' ', '\n', '\r'], c ∉ regionEndText x := by
   intro c hc
   unfold regionEndText
   split
   · exact itoa_free_tabnl _ c (by
       simp only [List.mem_cons, List.not_mem_nil, or_false] at hc ⊢
-      rcases hc with rfl | rfl <;> simp)
+      rcases hc with rfl | rfl | rfl <;> simp)
   · split
     · exact digitsOnly_free _ c hc
     · simp only [List.mem_cons, List.not_mem_nil, or_false] at hc
-      rcases hc with rfl | rfl <;> decide
+      rcases hc with rfl | rfl | rfl <;> decide
 
-theorem regionLine_split (x : Gff) (h : free [' ', '\n'] (regionName x) = true) :
+theorem regionLine_split (x : Gff) (h : free [' ', '\n', '\r'] (regionName x) = true) :
     split ' ' (regionLine x) = [sSeqRegion, regionName x, regionStartText x, regionEndText x] := by
   unfold regionLine
   simp only [List.append_assoc, List.cons_append]
@@ -311,7 +308,7 @@ theorem chunks_mem : ∀ (ws : List Nat) (s : Str), ∀ l ∈ chunks ws s, ∀ c
     · exact List.mem_of_mem_drop (chunks_mem ws (s.drop w) l hl c hc)
 
 structure FeatLineFacts (f : FeatLine) : Prop where
-  cols : ∀ c ∈ [f.seqid, f.source, f.type, itoa f.first, itoa f.last, f.score, f.strand, f.phase], ∀ x ∈ ['\t', '\n'], x ∉ c
+  cols : ∀ c ∈ [f.seqid, f.source, f.type, itoa f.first, itoa f.last, f.score, f.strand, f.phase], ∀ x ∈ ['\t', '\n', '\r'], x ∉ c
   noHash : hasPrefix sHash1 f.seqid = false
   first : minInt ≤ f.first ∧ f.first ≤ maxInt
   last : minInt ≤ f.last ∧ f.last ≤ maxInt
@@ -329,50 +326,53 @@ theorem featLineFacts {f : FeatLine} (h : wfFeatLine f = true) : FeatLineFacts f
   · exact free_not_mem h4 hx
   · exact itoa_free_tabnl _ x (by
       simp only [List.mem_cons, List.not_mem_nil, or_false] at hx ⊢
-      rcases hx with rfl | rfl <;> simp)
+      rcases hx with rfl | rfl | rfl <;> simp)
   · exact itoa_free_tabnl _ x (by
       simp only [List.mem_cons, List.not_mem_nil, or_false] at hx ⊢
-      rcases hx with rfl | rfl <;> simp)
+      rcases hx with rfl | rfl | rfl <;> simp)
   · exact free_not_mem h5 hx
   · exact free_not_mem h6 hx
   · exact free_not_mem h7 hx
 
-theorem featText_plain (f : FeatLine) : featText false f = joinSep '\t' [f.seqid, f.source, f.type, itoa f.first, itoa f.last,
-    f.score, f.strand, f.phase, attrText f.attrs] := by
-  simp [featText]
+theorem featText_eq (semi : Bool) (f : FeatLine) : featText semi f = joinSep '\t' [f.seqid, f.source, f.type, itoa f.first,
+    itoa f.last, f.score, f.strand, f.phase, col9 semi f.attrs] := rfl
 
-theorem parseFeature_featText {f : FeatLine} (h : wfFeatLine f = true) :
-    parseFeature (featText false f) = .ok (denoteFeat f) := by
+theorem parseFeature_featText (semi : Bool) {f : FeatLine} (h : wfFeatLine f = true) :
+    parseFeature (featText semi f) = .ok (denoteFeat f) := by
   have hf := featLineFacts h
-  rw [featText_plain]
-  rw [parseFeature_cols _ _ _ _ _ _ _ _ _ (fun c hc => hf.cols c hc '\t' (by simp)) hf.attrs]
+  rw [featText_eq]
+  rw [parseFeature_cols _ _ _ _ _ _ _ _ _ semi (fun c hc => hf.cols c hc '\t' (by simp)) hf.attrs]
   rw [atoi_itoa hf.first, atoi_itoa hf.last]
   rfl
 
-theorem featText_line {f : FeatLine} (h : wfFeatLine f = true) :
-    featText false f ≠ [] ∧ hasPrefix sHash1 (featText false f) = false ∧ '\n' ∉ featText false f := by
+theorem featText_line (semi : Bool) {f : FeatLine} (h : wfFeatLine f = true) :
+    featText semi f ≠ [] ∧ hasPrefix sHash1 (featText semi f) = false ∧ (∀ x ∈ ['\n', '\r'], x ∉ featText semi f) := by
   have hf := featLineFacts h
-  rw [featText_plain]
+  rw [featText_eq]
   refine ⟨by simp [joinSep], ?_, ?_⟩
   · rw [joinSep_cons2]
     exact hasPrefix_hash_col _ hf.noHash
-  · intro hm
+  · intro x hx hm
+    have hx3 : x ∈ ['\t', '\n', '\r'] := by
+      simp only [List.mem_cons, List.not_mem_nil, or_false] at hx ⊢
+      rcases hx with rfl | rfl <;> simp
     rcases mem_joinSep hm with e | ⟨l, hl, hc⟩
-    · exact absurd e (by decide)
+    · simp only [List.mem_cons, List.not_mem_nil, or_false] at hx
+      rcases hx with rfl | rfl <;> exact absurd e (by decide)
     · simp only [List.mem_cons, List.not_mem_nil, or_false] at hl
       rcases hl with rfl | rfl | rfl | rfl | rfl | rfl | rfl | rfl | rfl
       all_goals first
-        | exact attrText_free hf.attrs (by simp) hc
-        | exact hf.cols _ (by simp) '\n' (by simp) hc
+        | exact col9_free hf.attrs semi hx3 hc
+        | exact hf.cols _ (by simp) x hx3 hc
 
 /-! ### skip lines and interleaving -/
 
 theorem skip_facts {l : Str} (h : wfSkip l = true) :
-    (l = [] ∨ (hasPrefix sHash1 l = true ∧ l ≠ sFasta)) ∧ '\n' ∉ l := by
+    (l = [] ∨ (hasPrefix sHash1 l = true ∧ l ≠ sFasta)) ∧ (∀ x ∈ ['\n', '\r'], x ∉ l) := by
   simp only [wfSkip, Bool.or_eq_true, Bool.and_eq_true, bne_iff_ne, ne_eq, List.isEmpty_iff] at h
   rcases h with h | h
   · exact ⟨Or.inl h, by simp [h]⟩
-  · exact ⟨Or.inr ⟨h.1.1, h.1.2⟩, free_not_mem h.2 (by simp)⟩
+  · exact ⟨Or.inr ⟨h.1.1, h.1.2⟩, fun x hx => free_not_mem h.2 hx⟩
 
 theorem midOk_skips : ∀ (ls : List Str), (∀ l ∈ ls, wfSkip l = true) → MidOk ls []
   | [], _ => MidOk.nil
@@ -413,19 +413,19 @@ theorem mem_interleave : ∀ (xs : List Str) (gs : List (List Str)) (l : Str),
       · exact Or.inl (List.mem_cons_of_mem _ h)
       · exact Or.inr ⟨g', List.mem_cons_of_mem _ hg', hl⟩
 
-theorem midOk_featLines : ∀ (fs : List FeatLine) (gs : List (List Str)), (∀ f ∈ fs, wfFeatLine f = true) →
+theorem midOk_featLines (semi : Bool) : ∀ (fs : List FeatLine) (gs : List (List Str)), (∀ f ∈ fs, wfFeatLine f = true) →
     (∀ g ∈ gs, ∀ l ∈ g, wfSkip l = true) →
-    MidOk (interleave (fs.map (featText false)) gs) (fs.map denoteFeat)
+    MidOk (interleave (fs.map (featText semi)) gs) (fs.map denoteFeat)
   | [], _, _, _ => by simpa [interleave] using MidOk.nil
   | f :: fs, [], h, hg => by
-    have hl := featText_line (h f (by simp))
-    have h1 := MidOk.feature hl.1 hl.2.1 (parseFeature_featText (h f (by simp)))
-    have h2 := midOk_featLines fs [] (fun x hx => h x (by simp [hx])) hg
+    have hl := featText_line semi (h f (by simp))
+    have h1 := MidOk.feature hl.1 hl.2.1 (parseFeature_featText semi (h f (by simp)))
+    have h2 := midOk_featLines semi fs [] (fun x hx => h x (by simp [hx])) hg
     simpa [interleave] using MidOk.append h1 h2
   | f :: fs, g :: gs, h, hg => by
-    have hl := featText_line (h f (by simp))
-    have h1 := MidOk.feature hl.1 hl.2.1 (parseFeature_featText (h f (by simp)))
-    have h2 := midOk_featLines fs gs (fun x hx => h x (by simp [hx])) (fun x hx => hg x (by simp [hx]))
+    have hl := featText_line semi (h f (by simp))
+    have h1 := MidOk.feature hl.1 hl.2.1 (parseFeature_featText semi (h f (by simp)))
+    have h2 := midOk_featLines semi fs gs (fun x hx => h x (by simp [hx])) (fun x hx => hg x (by simp [hx]))
     have := MidOk.append (midOk_skips g (hg g (by simp))) (MidOk.append h1 h2)
     simpa [interleave] using this
 
@@ -442,19 +442,63 @@ theorem tailOk_chunks : ∀ (cs : List Str) (gs : List (List Str)), (∀ l ∈ c
     have := TailOk.append (tailOk_skips g (hg g (by simp))) (TailOk.append h1 h2)
     simpa [interleave] using this
 
-theorem midOk_directives : ∀ (ds : List Str), (∀ l ∈ ds, wfDirective l = true) → MidOk ds []
-  | [], _ => MidOk.nil
-  | l :: ds, h => by
-    have hl := h l (by simp)
-    simp only [wfDirective, Bool.and_eq_true, bne_iff_ne, ne_eq] at hl
-    have := MidOk.append (MidOk.skip (hasPrefix_hash1_of_hash2 hl.1.1) hl.1.2) (midOk_directives ds (fun x hx => h x (by simp [hx])))
-    simpa using this
-
 theorem joinLines_lf : ∀ (ls : List Str), joinLines ['\n'] ls = joinSep '\n' ls
   | [] => rfl
   | [l] => rfl
   | l :: l' :: ls => by
     simp only [joinLines, joinSep, joinLines_lf (l' :: ls)]
     simp
+
+/-- CR appended to every line but the last -/
+def crButLast : List Str → List Str
+  | [] => []
+  | [l] => [l]
+  | l :: ls => (l ++ ['\r']) :: crButLast ls
+
+theorem joinLines_crlf : ∀ (ls : List Str), joinLines ['\r', '\n'] ls = joinSep '\n' (crButLast ls)
+  | [] => rfl
+  | [l] => rfl
+  | l :: l' :: ls => by
+    have ih := joinLines_crlf (l' :: ls)
+    simp only [joinLines, crButLast, joinSep] at ih ⊢
+    cases h : crButLast (l' :: ls) with
+    | nil => simp [crButLast] at h
+    | cons a r =>
+      rw [h] at ih
+      simp [joinSep, ih]
+
+theorem joinLines_crlf_final : ∀ (ls : List Str), ls ≠ [] →
+    joinLines ['\r', '\n'] ls ++ ['\r', '\n'] = joinSep '\n' (ls.map (· ++ ['\r'])) ++ ['\n']
+  | [], h => absurd rfl h
+  | [l], _ => by simp [joinLines, joinSep]
+  | l :: l' :: ls, _ => by
+    have ih := joinLines_crlf_final (l' :: ls) (by simp)
+    simp only [joinLines, List.map_cons, joinSep, List.append_assoc] at ih ⊢
+    rw [ih]
+    simp
+
+theorem crButLast_mem : ∀ (ls : List Str) (l : Str), l ∈ crButLast ls → l ∈ ls ∨ ∃ x ∈ ls, l = x ++ ['\r']
+  | [], l, h => by simp [crButLast] at h
+  | [x], l, h => by simp only [crButLast, List.mem_singleton] at h; exact Or.inl (by simp [h])
+  | x :: y :: ls, l, h => by
+    simp only [crButLast, List.mem_cons] at h
+    rcases h with rfl | h
+    · exact Or.inr ⟨x, by simp, rfl⟩
+    · rcases crButLast_mem (y :: ls) l (by simpa [crButLast] using h) with h | ⟨z, hz, e⟩
+      · exact Or.inl (List.mem_cons_of_mem _ h)
+      · exact Or.inr ⟨z, List.mem_cons_of_mem _ hz, e⟩
+
+theorem crButLast_trim : ∀ (ls : List Str), (∀ l ∈ ls, '\r' ∉ l) → (crButLast ls).map trimCR = ls
+  | [], _ => rfl
+  | [x], h => by simp [crButLast, trimCR_of_free (h x (by simp))]
+  | x :: y :: ls, h => by
+    have ih := crButLast_trim (y :: ls) (fun l hl => h l (by simp [hl]))
+    simp only [crButLast, List.map_cons, trimCR_cr] at ih ⊢
+    rw [ih]
+
+theorem map_cr_trim (ls : List Str) : (ls.map (· ++ ['\r'])).map trimCR = ls := by
+  induction ls with
+  | nil => rfl
+  | cons l ls ih => simp [trimCR_cr, ih]
 
 end PolyVerif.Gff
